@@ -26,6 +26,7 @@ SPEC = {
         "field-wise equality is taken through the public accessors and the to_bytes/to_repr conversions of the sapling-crypto, orchard, redjubjub and reddsa dependency crates",
         "zcash_primitives links the published zcash_encoding 0.4; the local components/zcash_encoding 0.5 is exercised directly",
         "the Orchard proof-size constant 2720+2272n is taken from the orchard dependency crate",
+        "Miri (thorough tier) interprets only zcash_encoding and transparent-only/empty v5 transaction shells; shielded parsing is covered by the debug-assertion/overflow-check build only",
     ],
     "tiers": {
         "quick": {"shards": 12, "budget_s": 45, "extra": {"tx-events": 220, "hdr-events": 40}},
@@ -53,18 +54,20 @@ SPEC = {
             "py_tx_checked": 800, "py_pre_v5_txid_sha256d_checked": 400, "py_v5_v6_layout_checked": 200, "py_headers_checked": 300,
         },
         "thorough": {
-            "evaluations": 4_000_000, "distinct_nontrivial": 4000,
-            "arb_tx_values": 700, "mutants_rejected": 2_000_000, "mutants_accepted": 300_000,
-            "op_truncate": 400_000, "op_bitflip": 300_000, "op_cs-noncanonical": 300_000, "op_count-huge": 250_000,
-            "op_amount-out-of-range": 150_000, "op_branch-swap": 25_000, "op_flags-reserved": 10_000,
-            "shape_compactsize_253_boundary": 1500, "shape_compactsize_64k_boundary": 60, "shape_script_64k": 60,
-            "shape_with_joinsplits": 2500, "shape_with_orchard": 3000, "shape_with_ironwood": 500, "shape_coinbase": 2000,
-            "shape_all_bundles_empty": 2000, "shape_sapling_spends_only": 1500, "shape_sapling_outputs_only": 1500,
-            "pos_v6_nu6_3": 1200, "pos_v5_nu5": 1200, "pos_v5_nu6_3": 1200, "pos_v4_sapling": 1200, "pos_v4_nu6_3": 1200,
-            "pos_v3_overwinter": 1200, "pos_v1_sprout": 1200, "pos_v2_sprout": 1200, "pos_v2hi_sprout": 1200,
+            # time-budgeted on a shared machine: ~1/3 of a quiet run, ~1/2 of a loaded one
+            "evaluations": 2_500_000, "distinct_nontrivial": 4000,
+            "arb_tx_values": 700, "mutants_rejected": 1_200_000, "mutants_accepted": 250_000,
+            "op_truncate": 300_000, "op_bitflip": 220_000, "op_cs-noncanonical": 220_000, "op_count-huge": 180_000,
+            "op_amount-out-of-range": 100_000, "op_branch-swap": 20_000, "op_flags-reserved": 8000,
+            "shape_compactsize_253_boundary": 1200, "shape_compactsize_64k_boundary": 50, "shape_script_64k": 50,
+            "shape_with_joinsplits": 2000, "shape_with_orchard": 2500, "shape_with_ironwood": 350, "shape_coinbase": 1400,
+            "shape_all_bundles_empty": 1400, "shape_sapling_spends_only": 1100, "shape_sapling_outputs_only": 1100,
+            "pos_v6_nu6_3": 900, "pos_v5_nu5": 900, "pos_v5_nu6_3": 900, "pos_v4_sapling": 900, "pos_v4_nu6_3": 900,
+            "pos_v3_overwinter": 900, "pos_v1_sprout": 900, "pos_v2_sprout": 900, "pos_v2hi_sprout": 900,
             "header_cases": 4000, "compactsize_max_vector_accepted": 1, "oversized_compactsize_with_data_rejected": 1,
             "enc5_compactsize_values": 16, "enc5_combinator_rounds": 16,
             "py_tx_checked": 15000, "py_pre_v5_txid_sha256d_checked": 8000, "py_v5_v6_layout_checked": 4000, "py_headers_checked": 2500,
+            "miri_sections_run": 2, "miri_processes_clean_encoding": 8, "miri_processes_clean_tx": 8,
         },
     },
     "manifest": {
@@ -144,6 +147,18 @@ def _check_events(path):
             if blockhdr.block_hash(raw).hex() != ev["hash"]:
                 viol("C03:header-hash-not-sha256d:py", "BlockHeader::hash() != sha256d(header bytes)", ev)
     return out
+
+
+def run(tier, seed, fold):
+    import driver
+    shards = driver.standard_run(SPEC, tier, seed, fold)
+    post(shards, fold, tier, seed)
+    if tier == "thorough":
+        # Sanitizer add-on: Miri (UB / invalid values / overflow in everything reached, dependencies included) over
+        # zcash_encoding 0.5 and over Transaction::read/write of transparent-only / empty v5 shells and their mutants
+        # (shielded parsing is too slow under an interpreter); workloads live in harness/vh-miri (sections encoding, tx).
+        driver.miri_run("C03", "encoding", seed, fold, procs=8, ops=400)
+        driver.miri_run("C03", "tx", seed, fold, procs=8, ops=90)
 
 
 def post(shards, fold, tier, seed):
